@@ -432,6 +432,37 @@ theorem lex_ws (c : Char) (cs : Str) (hc : isWsC c = true) :
   simpa using this
 
 
+
+theorem takeWhile_run {α} (p : α → Bool) (l : List α) (d : α) (r : List α) (hl : ∀ c ∈ l, p c = true) (hd : p d = false) :
+    (l ++ d :: r).takeWhile p = l ∧ (l ++ d :: r).dropWhile p = d :: r := by
+  induction l with
+  | nil => simp [hd]
+  | cons a l ih =>
+    have := ih (fun c hc => hl c (by simp [hc]))
+    simp [hl a (by simp), this]
+
+/-- a complete token run followed by a non-token character is emitted as one token -/
+theorem lex_tokrun_append (t : Str) (d : Char) (r : Str) (hne : t ≠ []) (ht : ∀ c ∈ t, isTokC c = true) (hd : isTokC d = false) :
+    bracketLex (t ++ d :: r) = (t, .token) :: bracketLex (d :: r) := by
+  cases t with
+  | nil => exact absurd rfl hne
+  | cons c cs =>
+    have tr := takeWhile_run isTokC (c :: cs) d r ht hd
+    have := (lex_tok c (cs ++ d :: r) (ht c (by simp))).2
+    rw [← List.cons_append, tr.1, tr.2] at this
+    exact this (by simp)
+
+theorem lex_wsrun_append (w : Str) (d : Char) (r : Str) (hne : w ≠ []) (hw : ∀ c ∈ w, isWsC c = true) (hd : isWsC d = false) :
+    bracketLex (w ++ d :: r) = (w, .ws) :: bracketLex (d :: r) := by
+  cases w with
+  | nil => exact absurd rfl hne
+  | cons c cs =>
+    have tr := takeWhile_run isWsC (c :: cs) d r hw hd
+    have := (lex_ws c (cs ++ d :: r) (hw c (by simp))).2
+    unfold skipWs at this
+    rw [← List.cons_append, tr.1, tr.2] at this
+    exact this (by simp)
+
 /-! ### running the automaton over lexer output -/
 
 theorem skipWs_cons_ws (c : Char) (cs : Str) (h : isWsC c = true) : skipWs (c :: cs) = skipWs cs := by
